@@ -68,7 +68,7 @@ func (c09) Budget(tier string) runner.Budget {
 
 func (c09) Describe() runner.Description {
 	return runner.Description{
-		Rule:        "each plan: (A) a node casts 1..4 blocks with transfer / contract transactions; every block, header, transaction and group the node produced or parsed is sent through Marshal/UnMarshal: the parsed object must re-hash to the sender's identifying hash and re-marshal to identical bytes; a block accepted by one incarnation is relayed as bytes and must be accepted by another with the same hash; edge-valued in-memory headers/transactions/groups (times in a seeded zone with sub-second part, zero and maximal integers, nil vs empty byte fields, prove values whose bytes start with zeros, request-id maps, empty and 200-transaction bodies) must reach a fixed point after one marshal/parse pass; the genesis header and fully populated boundary headers (prove value 0/1/255/256, zero counters, epoch times) and 10 seeded transactions with unusual field texts (upper-case / EIP-55 / 0X-prefixed / non-address sources and targets, binary and unicode data, extreme nonces and request ids, sub transactions moving balance / coins / fungible tokens / assets) must keep their hash and every field; bytes returned by any Marshal call must not change when the codec is used again. (C, 40% of the plans) 2-3 scheduler tasks marshal the node's blocks, headers, transactions and the group concurrently (statement-level yield points inside middleware/types): every caller must receive exactly the bytes the same call returns alone and re-hash its header / transaction to the identifying hash; the same plans run in the race-detector stage. (B) 20..120 corrupted deliveries: valid bytes of each message kind are bit-flipped, truncated, extended, stripped of one optional protobuf field, or replaced by random bytes, and handed to the exported parsers directly and, as envelopes or as gateway frames (every method code, with the network-id prefix of the to-manager method, also cut short), to the node's receive path (NewBlockMsg, ReqTransactionMsg, TransactionGotMsg handlers run as scheduler tasks); consensus messages (block proposal, verification share, key share piece, signing-key announcement; built as the consensus encoders build them, then corrupted) take the same path into the real ConsensusHandler.Handle, which the connection starts as a goroutine = a scheduler task, and through consensus/net/msg_decode.go. Any panic that escapes is a violation; afterwards an intact block must still be accepted. evaluations = codec round trips + corrupted deliveries. distinct_nontrivial = distinct (message kind, corruption kind, parse outcome, path) tuples.",
+		Rule:        "each plan: (A) a node casts 1..4 blocks with transfer / contract transactions; every block, header, transaction and group the node produced or parsed is sent through Marshal/UnMarshal: the parsed object must re-hash to the sender's identifying hash and re-marshal to identical bytes; a block accepted by one incarnation is relayed as bytes and must be accepted by another with the same hash; edge-valued in-memory headers/transactions/groups (times in a seeded zone with sub-second part, zero and maximal integers, nil vs empty byte fields, prove values whose bytes start with zeros, request-id maps, empty and 200-transaction bodies) must reach a fixed point after one marshal/parse pass; the genesis header and fully populated boundary headers (prove value 0/1/255/256, zero counters, epoch times) and 10 seeded transactions with unusual field texts (upper-case / EIP-55 / 0X-prefixed / non-address sources and targets, the same address in several spellings within one process, binary and unicode data, extreme nonces and request ids, sub transactions moving balance / coins / fungible tokens / assets) must keep their hash and every field; bytes returned by any Marshal call must not change when the codec is used again. (C, 40% of the plans) 2-3 scheduler tasks marshal the node's blocks, headers, transactions and the group concurrently (statement-level yield points inside middleware/types): every caller must receive exactly the bytes the same call returns alone and re-hash its header / transaction to the identifying hash; the same plans run in the race-detector stage. (B) 20..120 corrupted deliveries: valid bytes of each message kind are bit-flipped, truncated, extended, stripped of one optional protobuf field, or replaced by random bytes, and handed to the exported parsers directly and, as envelopes or as gateway frames (every method code, with the network-id prefix of the to-manager method, also cut short), to the node's receive path (NewBlockMsg, ReqTransactionMsg, TransactionGotMsg handlers run as scheduler tasks); consensus messages (block proposal, verification share, key share piece, signing-key announcement; built as the consensus encoders build them, then corrupted) take the same path into the real ConsensusHandler.Handle, which the connection starts as a goroutine = a scheduler task, and through consensus/net/msg_decode.go. Any panic that escapes is a violation; afterwards an intact block must still be accepted. evaluations = codec round trips + corrupted deliveries. distinct_nontrivial = distinct (message kind, corruption kind, parse outcome, path) tuples.",
 		Assumptions: []string{"sync-processor message kinds are not driven (the sync processor is not started)"},
 		Real:        []string{"middleware/types serialization (all Marshal*/UnMarshal*, PbTo*)", "network envelope codec and receive dispatch (instrumented: its goroutines are scheduler tasks)", "consensus/net ConsensusHandler.Handle + msg_decode + group-creation state machines", "core ChainHandler (new block, transaction request)", "notify bus fan-out under the simulated scheduler", "golang/protobuf"},
 		Stub:        []string{"websocket gate", "ConsensusHelper", "sync processor", "consensus message processors behind the real ConsensusHandler (decoded messages are dropped)"},
@@ -421,7 +421,7 @@ func (c09) Exec(raw json.RawMessage, st *simrt.Stats, log *simrt.Log) *simrt.Vio
 	// transactions with unusual but legal field contents: every authenticated field must come back
 	// byte for byte (the hash is computed over their text)
 	{
-		srcs := []string{node.Account(4), "0x" + strings.ToUpper(node.Account(5)[2:]), "0X" + node.Account(6)[2:], "0xAbCdEf0123456789aBcDeF0123456789abcdef01", "alice", "", "Ünïcode-名", "0x00"}
+		srcs := []string{node.Account(4), node.Account(5), "0x" + strings.ToUpper(node.Account(5)[2:]), "0x" + strings.ToUpper(node.Account(4)[2:6]) + node.Account(4)[6:], "0X" + node.Account(6)[2:], "0xAbCdEf0123456789aBcDeF0123456789abcdef01", "alice", "", "Ünïcode-名", "0x00"}
 		strs := []string{"", " ", "{\"a\":1}", "\x00\x01binary\xff", "UPPER lower", strings.Repeat("y", 300), "0xDEADbeef", "ünï\u2028"}
 		for k := 0; k < 10; k++ {
 			tx := &types.Transaction{Source: srcs[r.Intn(len(srcs))], Target: srcs[r.Intn(len(srcs))], Type: []int32{0, 100, 188, 200, -1, 1<<31 - 1}[r.Intn(6)],
